@@ -187,8 +187,9 @@ var goKeywords = []string{"break", "case", "chan", "const", "continue", "default
 var goPredeclared = []string{"any", "bool", "byte", "comparable", "complex64", "complex128", "error", "float32", "float64", "int", "int8", "int16", "int32", "int64",
 	"rune", "string", "uint", "uint8", "uint16", "uint32", "uint64", "uintptr", "true", "false", "iota", "nil", "append", "cap", "clear", "close", "complex", "copy",
 	"delete", "imag", "len", "make", "max", "min", "new", "panic", "print", "println", "real", "recover"}
-var usableNames = []string{"pkg", "calc", "x1", "_", "_x", "Var", "anyx", "var1", "int9", "go2", "iff", "x_y", "lexer", "parser", "main", "vars", "forx", "ifs"}
-var malformedNames = []string{"", "1x", "a-b", "a b", "a.b", "x/y", "9", "a+", "é-"}
+var usableNames = []string{"pkg", "calc", "x1", "_x", "x_", "Var", "anyx", "var1", "int9", "go2", "iff", "x_y", "lexer", "parser", "vars", "forx", "ifs"}
+// "_" has the shape of an identifier but cannot name a package (the blank identifier)
+var malformedNames = []string{"", "1x", "a-b", "a b", "a.b", "x/y", "9", "a+", "é-", "_"}
 
 // stubMatchIdent stands for idRegex.MatchString (the regexp engine is outside the interpreter): the
 // identifier shape `^[\p{L}_][\p{L}\p{Nd}_]*$` restricted to the ASCII names of this harness.
@@ -228,6 +229,6 @@ func harnessC16Names() {
 		verif.Assert(got, "a usable package name is rejected: "+name)
 	} else {
 		verif.Reach("malformed")
-		verif.Assert(!got, "a text that is not an identifier is accepted as a package name: "+name)
+		verif.Assert(!got, "a text that cannot name a Go package is accepted as a package name: "+name)
 	}
 }
